@@ -112,10 +112,16 @@ impl impl_details::CacheImplDetails for MemoryStore {
         if record.header.timestamp + (record.header.time_to_live as u64) > current_time {
             return false;
         }
-        match self.remove(key) {
-            Some(_) => true,
-            None => true,
+        // collect the expired entry - but only if it is still expired: a
+        // concurrent store may have replaced it by a fresh record meanwhile
+        let removed = self.memory.remove_if(key, |_key, current| {
+            current.header.time_to_live != 0
+                && current.header.timestamp + (current.header.time_to_live as u64) <= current_time
+        });
+        if let Some((_key, expired)) = &removed {
+            self.account(0, expired.len());
         }
+        true
     }
 }
 
